@@ -286,6 +286,19 @@ impl World {
                 let r: haloswap::factory::PairsResponse = self.app.wrap().query_wasm_smart(self.factory.clone(), &FactoryQueryMsg::Pairs { start_after, limit }).map_err(|e| e.to_string())?;
                 Ok(json!({"pairs": r.pairs.iter().map(|p| json!({"addr": p.contract_addr, "assets": serde_json::to_value(&p.asset_infos).unwrap()})).collect::<Vec<_>>()}))
             }
+            "walk_pairs" => {
+                // C19: walk the listing page by page, each time continuing after the last pair returned; stop on an empty page
+                let limit = st["limit"].as_u64().map(|x| x as u32);
+                let mut start_after: Option<[AssetInfo; 2]> = None;
+                let mut pages: Vec<Value> = vec![];
+                for _ in 0..400 {
+                    let r: haloswap::factory::PairsResponse = self.app.wrap().query_wasm_smart(self.factory.clone(), &FactoryQueryMsg::Pairs { start_after: start_after.clone(), limit }).map_err(|e| e.to_string())?;
+                    if r.pairs.is_empty() { break; }
+                    start_after = Some(r.pairs.last().unwrap().asset_infos.clone());
+                    pages.push(json!(r.pairs.iter().map(|p| p.contract_addr.clone()).collect::<Vec<_>>()));
+                }
+                Ok(json!({"pages": pages}))
+            }
             "exec_raw" => {
                 // arbitrary JSON message to a named contract: "factory" | "router" | "pair<i>" | token name | address
                 let target = s(&st["contract"]);
